@@ -789,6 +789,9 @@ pub enum BorrowOp {
     DataOptRead { a: u8 },
     /// clone the shared guard in `slot`
     CloneGuard { slot: u8 },
+    /// `Clone::clone_from` between two plain shared guards of one type: `dst` lets go of what it
+    /// guarded and guards what `src` guards
+    CloneFromGuard { dst: u8, src: u8 },
     DropGuard { slot: u8 },
     /// acquire guards inside catch_unwind, then panic while holding them
     PanicHolding { keys: Vec<(u8, u8, bool)> },
@@ -808,6 +811,15 @@ trait Held<'w> {
     fn try_clone(&self) -> Option<HB<'w>> {
         None
     }
+    /// plain shared guards: (type tag, address of the `Fetch`)
+    fn shared_raw(&mut self) -> Option<(u8, *mut ())> {
+        None
+    }
+    fn set_dyn(&mut self, _d: u8) {}
+    /// `dst.clone_from(self)` if both are plain shared guards of one type
+    fn clone_from_into(&self, _dst: &mut dyn Held<'w>) -> bool {
+        false
+    }
 }
 
 type HB<'w> = Box<dyn Held<'w> + 'w>;
@@ -818,6 +830,23 @@ struct HX<'a, T: Tracked>(FetchMut<'a, T>, u8);
 impl<'w, T: Tracked> Held<'w> for HS<'w, T> {
     fn try_clone(&self) -> Option<HB<'w>> {
         Some(Box::new(HS::<T>(self.0.clone(), self.1)))
+    }
+    fn shared_raw(&mut self) -> Option<(u8, *mut ())> {
+        Some((T::TY, &mut self.0 as *mut Fetch<'w, T> as *mut ()))
+    }
+    fn set_dyn(&mut self, d: u8) {
+        self.1 = d;
+    }
+    fn clone_from_into(&self, dst: &mut dyn Held<'w>) -> bool {
+        match dst.shared_raw() {
+            Some((ty, p)) if ty == T::TY => {
+                // SAFETY: the tag says `p` points to a live `Fetch<'w, T>` owned by `dst`
+                unsafe { (*(p as *mut Fetch<'w, T>)).clone_from(&self.0) };
+                dst.set_dyn(self.1);
+                true
+            }
+            _ => false,
+        }
     }
     fn keys(&self) -> Vec<((u8, u8), bool)> {
         vec![((T::TY, self.1), false)]
@@ -1014,9 +1043,18 @@ impl Prop for C08 {
                     b: src.pick(NWT) as u8,
                 },
                 10 => BorrowOp::DataOptRead { a: t },
-                11 => BorrowOp::CloneGuard {
-                    slot: src.pick(8) as u8,
-                },
+                11 => {
+                    if src.chance(8, 16) {
+                        BorrowOp::CloneGuard {
+                            slot: src.pick(8) as u8,
+                        }
+                    } else {
+                        BorrowOp::CloneFromGuard {
+                            dst: src.pick(8) as u8,
+                            src: src.pick(8) as u8,
+                        }
+                    }
+                }
                 12 | 13 | 14 => BorrowOp::DropGuard {
                     slot: src.pick(8) as u8,
                 },
@@ -1086,6 +1124,7 @@ impl Prop for C08 {
         let mut iter = IterState::None;
         let (mut panics, mut rebor) = (0u64, 0u64);
         let mut released_once: std::collections::BTreeSet<(u8, u8)> = Default::default();
+        let mut clone_froms = 0u64;
 
         for (step, op) in case.ops.iter().enumerate() {
             let bad = |what: String| Fail::new(format!("step {} {:?}: {}", step, op, what));
@@ -1251,6 +1290,29 @@ impl Prop for C08 {
                                 Ok(None) => {}
                                 Err(e) => return Err(bad(format!("cloning a shared guard panicked: {}", e))),
                             }
+                        }
+                    }
+                }
+                BorrowOp::CloneFromGuard { dst, src } => {
+                    let (di, si) = (dst as usize % held.len(), src as usize % held.len());
+                    if di != si && held[si].is_some() {
+                        if let Some(mut d) = held[di].take() {
+                            let (dk, sk) = (d.keys(), held[si].as_ref().unwrap().keys());
+                            let plain = |k: &Vec<((u8, u8), bool)>| k.len() == 1 && !k[0].1;
+                            if plain(&dk) && plain(&sk) && dk[0].0 .0 == sk[0].0 .0 {
+                                let r = outcome(|| held[si].as_ref().unwrap().clone_from_into(&mut *d));
+                                match r {
+                                    Ok(true) => {
+                                        // the new borrow is taken, the old one let go
+                                        model.take(sk[0].0, false);
+                                        model.release(dk[0].0, false);
+                                        clone_froms += 1;
+                                    }
+                                    Ok(false) => {}
+                                    Err(e) => return Err(bad(format!("clone_from between two shared guards panicked: {}", e))),
+                                }
+                            }
+                            held[di] = Some(d);
                         }
                     }
                 }
@@ -1462,6 +1524,7 @@ impl Prop for C08 {
         }
         st.class_n("predicted_panics", panics);
         st.class_n("reborrows_after_release", rebor);
+        st.class_n("clone_from_between_shared_guards", clone_froms);
         if panics > 0 && rebor > 0 {
             st.nontrivial(case, || json!({"predicted_panics": panics, "reborrows": rebor}));
         }
